@@ -7,7 +7,7 @@ VERIF="$(cd "$(dirname "$0")/.." && pwd)"
 REPO="${VERIF_REPO:-/repo}"
 cd "$VERIF"
 IDS="$@"
-[ -z "$IDS" ] && IDS=$(ls seeded)
+[ -z "$IDS" ] && IDS=$(ls seeded | grep -v "^rejected")
 for id in $IDS; do
   prop=$(python3 -c "import json;print(json.load(open('seeded/$id/meta.json'))['property'])")
   git -C "$REPO" checkout -q -- . 
